@@ -167,7 +167,7 @@ Qed.
    makes exactly one more select and ends *)
 Definition ex_cbclose : list label :=
   [OpenHandle; SetConn; Start; SelectBegin; Select true; ReadBegin; Read (RData 1); Dispatch None; HelloOk;
-   SelectBegin; Select true; ReadBegin; Read (RData 2); CbClose;
+   SelectBegin; Select true; ReadBegin; Read (RData 2); CbClose None;
    CStep Worker SetClosing true; CStep Worker CloseHandle true; CStep Worker ClearConn true;
    CStep Worker JoinW false; CloseRet Worker; Dispatch None;
    SelectBegin; Select false; ChkClosing true; ErrBroadcast; Exit].
